@@ -341,11 +341,21 @@ pub struct ZSchema {
     pub fields: BTreeMap<String, ZSchema>,
     /// key order of z.object as written
     pub field_order: Vec<String>,
+    /// constraints found on nested schemas (array elements, record values, tuple members ...)
+    pub nested: Vec<Constraint>,
 }
 
 impl ZSchema {
     fn of(shape: Shape) -> ZSchema {
-        ZSchema { shape, constraints: vec![], coerce: false, fields: BTreeMap::new(), field_order: vec![] }
+        ZSchema { shape, constraints: vec![], coerce: false, fields: BTreeMap::new(), field_order: vec![], nested: vec![] }
+    }
+    fn wrap(shape: Shape, children: &[&ZSchema]) -> ZSchema {
+        let mut z = ZSchema::of(shape);
+        for c in children {
+            z.nested.extend(c.constraints.iter().cloned());
+            z.nested.extend(c.nested.iter().cloned());
+        }
+        z
     }
 }
 
@@ -491,11 +501,11 @@ fn read_zod_ctor(path: &[&str], args: &[&Expr], type_args: &[Type]) -> Result<ZS
         }
         ["array"] => {
             let inner = read_zod(args.first().ok_or("z.array() without argument")?)?;
-            Ok(ZSchema::of(Shape::Arr(Box::new(inner.shape))))
+            Ok(ZSchema::wrap(Shape::Arr(Box::new(inner.shape.clone())), &[&inner]))
         }
         ["set"] => {
             let inner = read_zod(args.first().ok_or("z.set() without argument")?)?;
-            Ok(ZSchema::of(Shape::Set(Box::new(inner.shape))))
+            Ok(ZSchema::wrap(Shape::Set(Box::new(inner.shape.clone())), &[&inner]))
         }
         ["map"] => {
             if args.len() != 2 {
@@ -504,20 +514,32 @@ fn read_zod_ctor(path: &[&str], args: &[&Expr], type_args: &[Type]) -> Result<ZS
             Ok(ZSchema::of(Shape::MapObj(Box::new(read_zod(args[0])?.shape), Box::new(read_zod(args[1])?.shape))))
         }
         ["record"] => match args.len() {
-            1 => Ok(ZSchema::of(Shape::Rec(Box::new(Shape::Str), Box::new(read_zod(args[0])?.shape)))),
-            2 => Ok(ZSchema::of(Shape::Rec(Box::new(read_zod(args[0])?.shape), Box::new(read_zod(args[1])?.shape)))),
+            1 => {
+                let v = read_zod(args[0])?;
+                Ok(ZSchema::wrap(Shape::Rec(Box::new(Shape::Str), Box::new(v.shape.clone())), &[&v]))
+            }
+            2 => {
+                let k = read_zod(args[0])?;
+                let v = read_zod(args[1])?;
+                Ok(ZSchema::wrap(Shape::Rec(Box::new(k.shape.clone()), Box::new(v.shape.clone())), &[&k, &v]))
+            }
             _ => Err("z.record() needs one or two arguments".into()),
         },
         ["tuple"] => match args.first() {
             Some(Expr::Array(items)) => {
                 let mut v = vec![];
+                let mut kids = vec![];
                 for it in items {
                     match it {
-                        ArrayElem::Item(e) => v.push(read_zod(e)?.shape),
+                        ArrayElem::Item(e) => {
+                            let z = read_zod(e)?;
+                            v.push(z.shape.clone());
+                            kids.push(z);
+                        }
                         _ => return Err("z.tuple() with spread/hole".into()),
                     }
                 }
-                Ok(ZSchema::of(Shape::Tup(v)))
+                Ok(ZSchema::wrap(Shape::Tup(v), &kids.iter().collect::<Vec<_>>()))
             }
             _ => Err("z.tuple() needs an array literal".into()),
         },
@@ -582,7 +604,7 @@ fn read_zod_ctor(path: &[&str], args: &[&Expr], type_args: &[Type]) -> Result<ZS
                         _ => return Err("spread/method in z.object()".into()),
                     }
                 }
-                Ok(ZSchema { shape: Shape::Obj(shape_fields, None), constraints: vec![], coerce: false, fields, field_order: order })
+                Ok(ZSchema { shape: Shape::Obj(shape_fields, None), constraints: vec![], coerce: false, fields, field_order: order, nested: vec![] })
             }
             _ => Err("z.object() needs an object literal".into()),
         },
